@@ -45,6 +45,32 @@ theorem discardSubsequence_eq (k : Nat) (hk : k < 2 ^ 64) (s : State) :
   cases h1 : discardSubsequence k s; cases h2 : stepN (2 ^ 67 * k) s
   simp_all
 
+/-- n draws then m draws are n + m draws (helper for the composition laws) -/
+theorem stepN_add (m n : Nat) (s : State) : stepN (m + n) s = stepN n (stepN m s) := by
+  induction m generalizing s with
+  | zero => rw [Nat.zero_add]; rfl
+  | succ m ih => rw [Nat.succ_add, stepN, ih (step s)]; rfl
+
+/-- ★ C13.1' skip-ahead composes: discarding b then a values is discarding a + b values, so a
+    stream position reached by any chain of 64-bit skips is the position of the sum -/
+theorem discard_compose (a b : Nat) (hab : a + b < 2 ^ 64) (s : State) :
+    discard a (discard b s) = discard (a + b) s := by
+  rw [discard_eq_draws b (by omega) s, discard_eq_draws a (by omega), discard_eq_draws _ hab,
+    Nat.add_comm a b, stepN_add]
+
+/-- ★ C13.2' the two skips that `operator=(Initializer)` performs commute: offset then
+    subsequence leaves exactly the state of subsequence then offset -/
+theorem discard_subsequence_commute (n k : Nat) (hn : n < 2 ^ 64) (hk : k < 2 ^ 64) (s : State) :
+    discard n (discardSubsequence k s) = discardSubsequence k (discard n s) := by
+  rw [discardSubsequence_eq k hk s, discard_eq_draws n hn, discardSubsequence_eq k hk,
+    discard_eq_draws n hn s, ← stepN_add, ← stepN_add, Nat.add_comm]
+
+/-- subsequence skips compose as long as the total is a 64-bit count -/
+theorem discardSubsequence_compose (a b : Nat) (hab : a + b < 2 ^ 64) (s : State) :
+    discardSubsequence a (discardSubsequence b s) = discardSubsequence (a + b) s := by
+  rw [discardSubsequence_eq b (by omega) s, discardSubsequence_eq a (by omega),
+    discardSubsequence_eq _ hab, ← stepN_add, Nat.mul_add, Nat.add_comm]
+
 /-- ★ C13.3 exact period 2^160 − 1 of the xorshift part on every non-zero state -/
 theorem xorshift_period (x : XS) (hx : x ≠ XS.zero) (d : Nat) :
     iter d x = x ↔ (2 ^ 160 - 1) ∣ d :=
